@@ -117,7 +117,7 @@ def run_check(prop, repo, tier, jobs, seed, out=sys.stdout):
             print('  %s:%s rule=%s construct=%s [%s] msg=%s (%d instance(s))%s'
                   % (f0.get('file'), f0.get('line'), f0.get('rule'), f0.get('construct'), f0.get('discriminator'),
                      f0.get('msg'), len(unlisted[k]),
-                     (' path=' + '>'.join(f0['call_path'])) if f0.get('call_path') else ''), file=out)
+                     (' interpreted=' + ','.join(f0['call_path'][:12])) if f0.get('call_path') else ''), file=out)
         return 1
     print('OK property=%s tier=%s wall=%.1fs %s' % (prop, tier, time.time() - t0,
           json.dumps({k: v for k, v in cov.items() if isinstance(v, (int, float, bool))})), file=out)
